@@ -26,13 +26,17 @@ class JsonExtends(Harness):
                      "presence of each of 3 keys per entry are solver choice variables (the solver enumerates the "
                      "graphs: chains, diamonds through repeated parents, cycles, missing parents)")
     nontrivial_event = "the resolved entry inherits at least one key from an ancestor"
-    bounds = {"quick": "3 entries x 3 keys, one of them excluded from inheritance", "thorough": "4 entries"}
+    bounds = {"quick": "3 entries x 3 keys, one of them excluded from inheritance",
+              "thorough": "adds 4 entries x 2 keys (one excluded)"}
     reach = ("nontrivial", "cycle", "missing-parent", "excluded-key-skipped", "shadowed")
     agreement_runs = 10
 
     def cases(self, tier):
-        n = 3 if tier == "quick" else 4
-        return [{"n": n, "target": t} for t in range(n)]
+        if tier == "quick":
+            return [{"n": 3, "target": t, "keys": KEYS} for t in range(3)]
+        # 4 entries: 2 keys (one of them non-inheritable) keep the graph space at 6^4 x 4^4 per target
+        return [{"n": 3, "target": t, "keys": KEYS} for t in range(3)] + \
+               [{"n": 4, "target": t, "keys": ["a", "x"]} for t in range(4)]
 
     def run(self, g, case):
         n = case["n"]
@@ -44,7 +48,7 @@ class JsonExtends(Harness):
                 d["extends"] = f"E{par}"
             elif par == n + 1:
                 d["extends"] = "MISSING"
-            for k in KEYS:
+            for k in case.get("keys", KEYS):
                 if g.boolean(f"has{i}{k}"):
                     d[k] = 10 * i + KEYS.index(k)
             whole[f"E{i}"] = d
